@@ -52,14 +52,15 @@ class C12(S4UCheck):
                     ops.append(['io_async', s, 'd_' + host, nat * 1e6, 'read'])
                 elif c < 7:
                     o = 'h%d' % ((int(host[1:]) + 1) % nh)
-                    ops.append(['sendto', s, host, o, nat * 1e6])
+                    # (empty messages too: nothing to transfer, the whole duration is the latency phase)
+                    ops.append(['sendto', s, host, o, 0.0 if r.chance(0.2) else nat * 1e6])
                 elif c < 8:
                     ops.append([r.choice(['mget_async', 'mput_async']), s, r.choice(['q0', 'q1'])])
                 elif c < 9:
                     # started, or left unstarted so that the timed wait itself starts it (one isend/irecv+wait simcall)
                     ops.append([r.choice(['get_async', 'put_async', 'get_init', 'put_init']), s] + ([r.choice(['mb0', 'mb1'])]))
                     if ops[-1][0].startswith('put'):
-                        ops[-1].append(nat * 1e6)
+                        ops[-1].append(0.0 if r.chance(0.2) else nat * 1e6)
                 else:
                     # two activities and a wait_any_for
                     s2 = slot()
